@@ -272,3 +272,70 @@ def interior_point(curve):
             if tries > 40:
                 return None
     return None
+
+
+# ----------------------------------------------------------------------------------
+# exact-arithmetic blow-up guard ("never hangs" decided on a logical resource, not on time)
+# ----------------------------------------------------------------------------------
+
+
+class BigNumBlowup(BaseException):
+    """A rational with an absurdly large denominator reached the evaluation kernel"""
+
+
+BIGNUM_BITS = 100000
+
+
+class BigNumGuard:
+    """Guard on BezierCurve.eval: no parameter may carry more than BIGNUM_BITS bits.
+
+    Correct executions keep parameters below a few hundred bits (coordinates are capped at
+    10**9, parameters come from crossings of such data).  An exact Newton iteration without
+    denominator cap triples the number of digits per step and effectively never returns;
+    the guard aborts such a run deterministically, independent of the machine's speed, and
+    the caller records it as 'does not return in practice'."""
+
+    def __init__(self):
+        self.raw = None
+        self.evaluations = 0
+
+    def install(self):
+        from shapepy import curve as crv
+
+        raw = crv.BezierCurve.eval
+        guard = self
+
+        def eval_guarded(self_, nodes):
+            guard.evaluations += 1
+            try:
+                for node in nodes:
+                    if isinstance(node, Fr) and node.denominator.bit_length() > BIGNUM_BITS:
+                        raise BigNumBlowup("a parameter with a %d-bit denominator reached BezierCurve.eval" %
+                                           node.denominator.bit_length())
+            except TypeError:
+                pass
+            return raw(self_, nodes)
+
+        crv.BezierCurve.eval = eval_guarded
+        self.raw = raw
+
+    def remove(self):
+        if self.raw is not None:
+            from shapepy import curve as crv
+
+            crv.BezierCurve.eval = self.raw
+            self.raw = None
+
+
+def guarded_call(fn, *args):
+    """(result, exception) like common.call, but a BigNumBlowup is returned as exception too"""
+    try:
+        return fn(*args), None
+    except BigNumBlowup as exc:
+        return None, exc
+    except Exception as exc:
+        from vf import worker
+
+        if worker.ALARM["fired"]:
+            raise worker.CaseTimeout()
+        return None, exc
